@@ -10,6 +10,9 @@ use crate::model::*;
 pub fn generate(family: &str, seed: u64) -> Program {
     match family {
         "long" => long(seed),
+        // (the new shapes are selected by the seed itself so that every other seed keeps generating
+        // the program it always did)
+        "fleet" if seed % 40 == 7 => churn(Gen::new(seed), "fleet"),
         "fleet" => many_stores(Gen::new(seed)),
         _ => panic!("unknown family {family}"),
     }
@@ -24,6 +27,9 @@ fn simple(g: &mut Gen) -> ActId {
 
 pub fn long(seed: u64) -> Program {
     let mut g = Gen::new(seed);
+    if seed % 7 == 3 {
+        return if seed % 140 == 3 { churn(g, "long") } else { many_producers(g) };
+    }
     match g.rng.below(12) {
         0..=2 => deep_queue(g),
         3..=4 => deep_subscriber(g),
@@ -459,4 +465,131 @@ fn many_effects(mut g: Gen) -> Program {
     main.push(Op::Unsub { reg: 0 });
     threads[0] = main;
     g.finish("long", stores, subs, 1, 0, 1, threads, knobs, false)
+}
+
+/// 10..40 producer threads against a parked reducer and a small queue: all of them inside dispatch()
+/// at once (blocking policy), or one after the other / all at once with a drop policy, so that more
+/// distinct threads than any fixed table holds have blocked, dropped or been refused on one store
+fn many_producers(mut g: Gen) -> Program {
+    let mut knobs = g.knobs(false);
+    knobs.step_limit = 2_000_000;
+    let policy = g.rng.pick(&[Policy::Block, Policy::Block, Policy::DropOldest, Policy::DropLatest]);
+    let cap = g.rng.pick(&[1usize, 2, 4, 8, 16]);
+    let nprod = g.rng.pick(&[10usize, 12, 17, 18, 24, 33, 40]);
+    let reds = vec![0u32];
+    let builder = g.canonical_builder("mp", cap, policy, &reds, &[]);
+    let stores = vec![StoreCfg { builder, droppable: false, stepper: Some((0, 0)), ctor: 0 }];
+    let subs = vec![SubCfg { kind: SubKind::Direct, ..Default::default() }];
+    let mut main = vec![Op::Build { store: 0 }, Op::AddSub { store: 0, sub: 0, reg: 0 }];
+    let mut threads: Vec<Vec<Op>> = vec![vec![]];
+    // the reducer is parked inside the first action, the queue is filled to the brim
+    let a0 = simple(&mut g);
+    main.push(Op::Dispatch { store: 0, act: a0, via: Via::Impl });
+    main.push(Op::Settle);
+    for _ in 0..cap {
+        let a = simple(&mut g);
+        main.push(Op::Dispatch { store: 0, act: a, via: Via::Impl });
+    }
+    for _ in 0..nprod {
+        let k = g.rng.pick(&[1usize, 1, 2, 5]);
+        let mut ops = vec![];
+        for _ in 0..k {
+            let a = simple(&mut g);
+            let via = g.via();
+            ops.push(Op::Dispatch { store: 0, act: a, via });
+        }
+        threads.push(ops);
+    }
+    let sequential = policy != Policy::Block && g.rng.chance(50);
+    if sequential {
+        for t in 1..=nprod {
+            main.push(Op::Start { thread: t });
+            main.push(Op::Join { thread: t });
+        }
+        main.push(Op::Snap { tag: 0 });
+    } else {
+        for t in 1..=nprod {
+            main.push(Op::Start { thread: t });
+        }
+        main.push(Op::Settle);
+        main.push(Op::Snap { tag: 0 });
+        for k in 0..g.rng.range(0, 3) {
+            main.push(Op::Open { gate: 0, n: g.rng.pick(&[1u32, 2, 9]) });
+            main.push(Op::Settle);
+            main.push(Op::Snap { tag: k as u32 + 1 });
+        }
+    }
+    main.push(Op::Open { gate: 0, n: 1_000_000 });
+    if !sequential {
+        for t in 1..=nprod {
+            main.push(Op::Join { thread: t });
+        }
+    }
+    main.push(Op::Settle);
+    main.push(Op::Stop { store: 0 });
+    main.push(Op::GetState { store: 0 });
+    main.push(Op::GetMetrics { store: 0 });
+    main.push(Op::Unsub { reg: 0 });
+    threads[0] = main;
+    g.finish("long", stores, subs, 1, 0, 1, threads, knobs, false)
+}
+
+/// tens of thousands of subscribe/unsubscribe pairs over the life of a process, spread over one
+/// store (family long) or two or three that are alive at the same time (family fleet), each with
+/// long-lived subscribers registered first: whatever the code counts per registration passes
+/// 65 536.  One thread; the cost is in the number of registrations, not in the interleavings.
+fn churn(mut g: Gen, family: &str) -> Program {
+    let mut knobs = g.knobs(false);
+    knobs.step_limit = 20_000_000;
+    let nstores = if family == "fleet" { g.rng.range(2, 3) as usize } else { 1 };
+    let mut stores = vec![];
+    let mut subs = vec![];
+    let mut main = vec![];
+    let mut regs = 0usize;
+    let reds = vec![0u32];
+    for s in 0..nstores {
+        let builder = g.canonical_builder(&format!("ch{s}"), 16, Policy::Block, &reds, &[]);
+        stores.push(StoreCfg { builder, droppable: false, stepper: None, ctor: 0 });
+        main.push(Op::Build { store: s });
+    }
+    // the long-lived ones, registered alternately so that their registrations are neighbours
+    for _ in 0..g.rng.range(2, 4) {
+        for s in 0..nstores {
+            let kind = if g.rng.chance(80) { SubKind::Direct } else { SubKind::Selector };
+            subs.push(SubCfg { kind, ..Default::default() });
+            main.push(Op::AddSub { store: s, sub: subs.len() - 1, reg: regs });
+            regs += 1;
+        }
+    }
+    let live = regs;
+    let total = g.rng.pick(&[65_600usize, 66_000, 70_000]);
+    for k in 0..total {
+        let s = g.rng.below(nstores as u64) as usize;
+        subs.push(SubCfg { kind: SubKind::Direct, ..Default::default() });
+        main.push(Op::AddSub { store: s, sub: subs.len() - 1, reg: regs });
+        main.push(Op::Unsub { reg: regs });
+        regs += 1;
+        if k % 8192 == 8191 {
+            let a = simple(&mut g);
+            main.push(Op::Dispatch { store: s, act: a, via: Via::Impl });
+            main.push(Op::Settle);
+        }
+    }
+    for s in 0..nstores {
+        for _ in 0..3 {
+            let a = simple(&mut g);
+            main.push(Op::Dispatch { store: s, act: a, via: Via::Impl });
+        }
+    }
+    main.push(Op::Settle);
+    main.push(Op::Snap { tag: 0 });
+    for s in 0..nstores {
+        main.push(Op::Stop { store: s });
+        main.push(Op::GetMetrics { store: s });
+    }
+    for r in 0..live {
+        main.push(Op::Unsub { reg: r });
+    }
+    let threads = vec![main];
+    g.finish(family, stores, subs, regs, 0, 0, threads, knobs, false)
 }
